@@ -19,7 +19,7 @@ from vlib import harness
 ID = "C01"
 LEVEL = "exploration"
 RULE = ("a case is one Parallel call: N in {0,1,..around k*n_jobs*batch +-1..,200} x n_jobs x batch_size (1,2,3,7,'auto') x "
-        "pre_dispatch (1,2,'n_jobs','2*n_jobs','1.5*n_jobs','all',3*n) x return_as (list, generator), on (a) the scripted "
+        "pre_dispatch (1,2,'n_jobs','2*n_jobs','1.5*n_jobs','all',3*n, and forms that evaluate to 0: 0, 'n_jobs//16', '0.1*n_jobs', 'n_jobs-n_jobs') x return_as (list, generator), on (a) the scripted "
         "backend with a seeded completion order, 1-3 callback threads, optional synchronous in-submit completion and "
         "seeded pre-emption injection on joblib/parallel.py, or (b) a real backend with seeded task durations, or (c) two generator "
         "calls on one object, the second made while the first generator still holds results of its completed run; "
@@ -70,7 +70,7 @@ def cases(tier, seed):
 def gen_config(rng):
     J = rng.choice([2, 2, 3, 4, 8])
     b = rng.choice([1, 1, 2, 3, 7, "auto", "auto"])
-    pd = rng.choice(["2*n_jobs", "n_jobs", 1, 2, 3, "all", "1.5*n_jobs", 3 * J, "2*n_jobs"])
+    pd = rng.choice(["2*n_jobs", "n_jobs", 1, 2, 3, "all", "1.5*n_jobs", 3 * J, "2*n_jobs", rng.choice([0, "n_jobs//16", "0.1*n_jobs", "n_jobs-n_jobs"])])
     bb = 1 if b == "auto" else b
     edge = rng.choice([1, 2, 3]) * J * bb + rng.choice([-1, 0, 1])
     N = rng.choice([0, 1, 2, 3, 5, 8, 13, 24, 40, max(0, edge), max(0, edge), 200 if rng.random() < 0.15 else 31])
